@@ -330,14 +330,25 @@ def run_C06(chk):
     if exe is None or not getattr(chk, 'driver_ok', False):
         return chk.finish()
     zones = pick_corpus(chk, scale)
-    blocks, meta = civil_blocks(chk, zones, scale, op='cv')
+    blocks, meta = civil_blocks(chk, zones, scale, op='cv', shuffle_too=True)
     mo, io = run_blocks(chk, exe, blocks, 'convert')
     note_mismatches(chk, blocks, mo, io, 'convert')
     good = 0
     for zn, out, css in zip(zones, io, meta):
         if not out[0].startswith('ok'): continue
+        # the probes were converted twice: in sorted order and in random order (other hidden hint states);
+        # both passes must be monotone along the sorted order, and agree with each other
+        n = len(css) // 2
+        first = list(zip(css[:n], out[1:1 + n]))
+        second = sorted(zip(css[n:], out[1 + n:1 + 2 * n]))
+        for (c1, o1), (c2, o2) in zip(first, second):
+            if c1 == c2 and o1 != o2:
+                chk.report('%s: convert(%s) = %s when called in ascending order but %s after other calls' % (zn.name, C.fmt(c1), o1, o2),
+                           {'zone': zn.name, 'tzif_hex': Z.hx(zn.data), 'op': 'cv ' + C.fmt(c1), 'implementation': [o1, o2]}, sig='%s convert history' % zn.name)
         prev = None
-        for cs, o in zip(css, out[1:]):     # css is sorted
+        for cs, o in first + [(None, None)] + second:
+            if cs is None:
+                prev = None; continue
             try: v = int(o)
             except ValueError:
                 chk.report('%s: convert(%s) gives %s' % (zn.name, C.fmt(cs), o), {'zone': zn.name, 'op': 'cv ' + C.fmt(cs), 'implementation': o}, sig='%s cv %s' % (zn.name, site_sig(o)))
